@@ -212,7 +212,7 @@ def main():
             known_lines.append('KNOWN-FINDING: property=%s %s [obligation %s]' % (pid, kf['what'], ob['name']))
             ob['known_finding'] = kf.get('id')
             continue
-        rp = try_replay(pid, ob)
+        rp = ob.get('native_replay') or try_replay(pid, ob)
         payload = {'property': pid, 'tier_kind': 'deductive', 'obligation': ob['name'],
                    'function': ob.get('function'), 'line': ob.get('line'), 'clause': ob.get('text'),
                    'solver_model': ob.get('model'), 'solver_backend': ob.get('backend'),
